@@ -1,5 +1,4 @@
 import SimVerif.Gen.LFanOut
-import SimVerif.Props.C10
 /-!
 # Tie (DESIGN.md 14.15): the fan-out of `TrackStore::foreign_track_distances`
 
@@ -46,30 +45,3 @@ theorem tie_store_foreign_fanout {T : Type} (execs : List (Nat × Unit)) (sent :
     rw [h', ih, List.append_assoc]
 
 end SimVerif.Tie
-
-namespace SimVerif.C10
-open SimVerif SimVerif.Track SimVerif.Store SimVerif.Tie List
-
-variable {TA M OA U Q E : Type}
-
-/-- **C10 for the commands the source sends.** With executors `0 … n-1` (one per shard), the (candidate, shard) pairs
-`foreign_track_distances` sends — read off the generated fan-out — are the full product; so for every order `arr` in which the
-chunks for exactly those pairs arrive, the collected result is a permutation of `foreignDistances`, with the same error count. -/
-theorem C10_source_fanout (cb : Cb TA M OA U Q E) (s : Store TA M OA) (h : Shape s)
-    (cands : List (Track TA M OA)) (cls : Nat) (ob : Bool) (arr : List (Track TA M OA × Nat))
-    (harr : arr ~ ((Gen.L.store_foreign_fanout ((List.range s.n).map (fun k => (k, ()))) [] cands cls ob).1.map
-      (fun m => (m.2.1, m.1)))) :
-    (collect cb s cls ob arr).1 ~ (foreignDistances cb s cands cls ob).1 ∧
-    (collect cb s cls ob arr).2 = (foreignDistances cb s cands cls ob).2 := by
-  apply C10_schedule_independent cb s h cands cls ob arr
-  refine harr.trans (Perm.of_eq ?_)
-  rw [tie_store_foreign_fanout]
-  simp only [List.nil_append, List.map_flatMap, List.map_map]
-  rfl
-
-/-- and the collectors wait for exactly that many chunks -/
-theorem C10_source_fanout_count {T : Type} (n : Nat) (cands : List T) (cls : Nat) (ob : Bool) :
-    (Gen.L.store_foreign_fanout ((List.range n).map (fun k => (k, ()))) [] cands cls ob).2 = (n * cands.length, n * cands.length) := by
-  rw [tie_store_foreign_fanout]; simp
-
-end SimVerif.C10
